@@ -75,7 +75,14 @@ INVALID_KINDS = ['bad_json', 'top_list', 'policy_scalar', 'preset_scalar',
                  'bad_section', 'mixed_sections', 'permission_list',
                  'permission_object', 'permission_number', 'permission_null',
                  'operations_scalar', 'operations_list', 'group_scalar',
-                 'groups_list']
+                 'groups_list',
+                 # "empty-looking" values of the wrong type in every
+                 # position where an object is required
+                 'policy_null', 'policy_empty_list', 'policy_empty_string',
+                 'policy_zero', 'policy_false', 'preset_empty_list',
+                 'preset_zero', 'groups_empty_list', 'group_null',
+                 'operations_null', 'operations_empty_list', 'top_null',
+                 'top_zero', 'top_empty_string']
 OTS = ['SYMMETRIC_KEY', 'PUBLIC_KEY', 'CERTIFICATE', 'SECRET_DATA']
 OPS = ['GET', 'LOCATE', 'DESTROY', 'ACTIVATE', 'GET_ATTRIBUTES']
 PERMS = ['ALLOW_ALL', 'ALLOW_OWNER', 'DISALLOW_ALL']
@@ -124,6 +131,24 @@ def invalid_text(kind, good, pos=0):
     if kind == 'policy_scalar':
         doc[first] = 5
         return json.dumps(doc)
+    falsy = {'policy_null': None, 'policy_empty_list': [],
+             'policy_empty_string': '', 'policy_zero': 0,
+             'policy_false': False}
+    if kind in falsy:
+        doc[first] = falsy[kind]
+        return json.dumps(doc)
+    if kind in ('top_null', 'top_zero', 'top_empty_string'):
+        return json.dumps({'top_null': None, 'top_zero': 0,
+                           'top_empty_string': ''}[kind])
+    if kind in ('preset_empty_list', 'preset_zero'):
+        doc[first] = {'preset': [] if kind == 'preset_empty_list' else 0}
+        return json.dumps(doc)
+    if kind == 'groups_empty_list':
+        doc[first] = {'groups': []}
+        return json.dumps(doc)
+    if kind == 'group_null':
+        doc[first] = {'groups': {'g1': None}}
+        return json.dumps(doc)
     if kind == 'preset_scalar':
         doc[first] = {'preset': 5}
         return json.dumps(doc)
@@ -147,6 +172,10 @@ def invalid_text(kind, good, pos=0):
             'permission_list': ['ALLOW_ALL'], 'permission_object':
             {'ALLOW_ALL': True}, 'permission_number': 1,
             'permission_null': None}[kind]
+    elif kind == 'operations_null':
+        sec[ot] = None
+    elif kind == 'operations_empty_list':
+        sec[ot] = []
     elif kind == 'operations_scalar':
         sec[ot] = 'ALLOW_ALL'
     elif kind == 'operations_list':
